@@ -473,3 +473,17 @@ def m_split_at_opaque(ex, a, callee, canon):
     if not ex.decide(z3.ULE(mid, n)):
         raise PathPanic("slice::split_at: mid > len")
     return Struct("tuple", [Ptr([fresh_bytes(ex, "split_l", mid)], 0), Ptr([fresh_bytes(ex, "split_r", n - mid)], 0)])
+
+
+@model(r"^core::slice::<impl \[u8\]>::split_first$")
+def m_split_first_opaque(ex, a, callee, canon):
+    s = ex.bytes_of(a[0])
+    items = ex.seq_items(s)
+    if items is not None:
+        if not items:
+            return NONE()
+        return some(Struct("tuple", [Ptr([Int(items[0], "u8")], 0), Ptr([Bytes(seq_of(items[1:]))], 0)]))
+    n = ex.seq_len(s)
+    if ex.decide(n == 0):
+        return NONE()
+    return some(Struct("tuple", [Ptr([Int(ex.fresh("first_byte", z3.BitVecSort(8)), "u8")], 0), Ptr([fresh_bytes(ex, "tail", n - 1)], 0)]))
